@@ -44,13 +44,13 @@ def run(repo: Repo) -> Result:
     T = types_of(repo)
     # ---- anchors + R3
     anchors = c08_scan.discover(repo)
-    n3 = c08_scan.run(repo, res, "C08.R3", anchors)
+    n3 = _guarded(res, "C08.R3", lambda: c08_scan.run(repo, res, "C08.R3", anchors), 0)
     res.floor("C08.R3", 4, n3)
     # ---- R2
     info = {"config_cls": None, "field": None}
-    if anchors.filter_cls is not None and anchors.pred_names:
+    if anchors.filter_cls is not None and (anchors.pred_methods or anchors.pred_names):
         for pred in sorted(anchors.pred_methods or anchors.pred_names):
-            got = c08_match.run(repo, res, "C08.R2", anchors.filter_cls, pred)
+            got = _guarded(res, "C08.R2", lambda pred=pred: c08_match.run(repo, res, "C08.R2", anchors.filter_cls, pred), {})
             if got.get("config_cls") is not None or got.get("field"):
                 info = got
     else:
@@ -58,7 +58,7 @@ def run(repo: Repo) -> Result:
     if anchors.filter_cls is not None and info.get("config_cls") is None:
         info = {**_config_of(repo, T, anchors.filter_cls), "none_ok": info.get("none_ok")}
     # ---- R4
-    converters = c08_plumb.run(repo, res, "C08.R4", anchors.scan_cls, anchors.filter_cls, info.get("config_cls"), info.get("field"), bool(info.get("none_ok")))
+    converters = _guarded(res, "C08.R4", lambda: c08_plumb.run(repo, res, "C08.R4", anchors.scan_cls, anchors.filter_cls, info.get("config_cls"), info.get("field"), bool(info.get("none_ok"))), [])
     # ---- R1
     convs: list[FuncInfo] = []
     for fq in converters:
@@ -72,8 +72,25 @@ def run(repo: Repo) -> Result:
             raise AnalysisError("the glob -> regex converter was found neither through the entry point's data flow nor by its public name")
         convs.append(f)
     for conv in convs:
-        _r1(repo, res, T, conv)
+        _guarded(res, "C08.R1", lambda conv=conv: _r1(repo, res, T, conv), None)
     return res
+
+
+def _guarded(res: Result, rule: str, fn, default):
+    """A crash inside one rule is an undecided construct of that rule (exit 2 with the reason), not the end of the whole check."""
+    try:
+        return fn()
+    except AnalysisError:
+        raise
+    except RecursionError:
+        res.undecide(rule, f"{rule} (internal)", "the analysis of this rule ran into the recursion limit", "")
+        return default
+    except Exception as e:  # noqa: BLE001
+        import traceback
+
+        tb = traceback.extract_tb(e.__traceback__)[-1]
+        res.undecide(rule, f"{rule} (internal)", f"the analysis of this rule failed on an unexpected code shape: {type(e).__name__}: {e} ({tb.filename.rsplit('/', 1)[-1]}:{tb.lineno})", "")
+        return default
 
 
 def _config_of(repo: Repo, T, filter_cls) -> dict:
